@@ -59,6 +59,10 @@ RULE = ("valid messages generated from the dumped metadata (wire bytes built ind
         "with and without mandatory members (now Ok/Exc), a Length field followed by 2049+ digits; ENC with a string field of 0..9000 bytes around the output[] boundary; "
         "the text of Length fields (2^32-k, 2^32+k, 2^31+-k, characters below '0', signs, empty, remaining size) on the "
         "sanitized and on an unsanitized build (DECW: fast_atoi<int> wraps, as the model); "
+        "history dependence: SEQ cases prime the stack in the harness frame (a valid message of several types decoded first, "
+        "or the stack filled with 0x00/'Z'/0x7f/0xff) and then decode inputs whose second header element fails -- the tie "
+        "covers stale-stack behaviour, the exception text is compared and must be a piece of the input, a returned message must "
+        "have the type the input names; "
         "REENC of long messages; fast_atoi, date/time parser and calc_chksum site probes; non-trivial = input of >= 40 bytes whose run "
         "produced a classified result; distinct = distinct case lines")
 
@@ -751,6 +755,31 @@ def gen_schema(rng, tier, meta, px, cs):
             tok = b"%d=%d\x01%d=%s\x01" % (lf, ln, df, b"q" * ln)
             i = w.index(SOH, w.index(b"\x0135=") + 1) + 1 if owner == "header" else len(w) - 7
             add(refix(w[:i] + tok + w[i:]), "data-limit-%d" % ln)
+
+    # -- history dependence (stale stack): in ONE frame of the harness the stack is primed (a valid
+    #    message of some type is decoded / the stack is filled with a byte), then factory runs on an
+    #    input whose SECOND header element cannot be extracted (extract_header returns after 8=..|, the
+    #    MsgType buffer is never written).  The answer must be the same InvalidMessage with the same
+    #    text whatever the history.
+    primers = []
+    for mt in [t for t in ("0", "D", "A", "8") if t in meta.msgs] + [rng.choice(types) for _ in range(k(2, 6))]:
+        primers.append("M" + valid(mtype=mt)[4].hex())
+    primes = ["N", "S0", "S90", "S127", "S255"] + primers
+    for _ in range(k(2, 6)):
+        mt, hdr, body, trl, w = valid()
+        i9 = w.index(b"\x019=") + 1
+        e9 = w.index(SOH, i9)
+        lenv = w[i9 + 2:e9]
+        shapes = [w[:i9 + 2] + b"0" * (32 - len(lenv)) + lenv + w[e9:],        # BodyLength of exactly 32 characters
+                  w[:i9 + 2] + b"0" * 37 + lenv + w[e9:],                        # ... of 40
+                  w[:i9 + 1], w[:i9 + 2], w[:e9],                                # truncated inside tag 9
+                  w[:i9] + b"X5=A\x01" + w[i9:],                                # non-digit tag after BeginString
+                  w[:i9] + b"\x01" + w[i9:], w[:i9] + b"9" + w[e9:],            # empty element / 9 without '='
+                  w[:e9 + 1] + b"\x01" + w[e9 + 1:],                            # third element fails (harmless)
+                  w[:i9 + 2] + b"0" * (31 - len(lenv)) + lenv + w[e9:]]          # 31 characters: still fits
+        for sh in shapes:
+            for pr in (primes if thorough else rng.sample(primes[:5], 3) + rng.sample(primers, 2)):
+                cs.append(Case("%sSEQ %s %s %s" % (px, rng.choice(("s", "p")), pr, sh.hex() or "-"), "seq-stale"))
 
     # -- encode: one string field of growing size around the output[] boundary
     big = None
